@@ -31,6 +31,7 @@ from bv.props.fsspy import Spy, OsProxy, _abs
 
 DEST = 'dest.txt'
 PART = 'dest.txt.part'
+TARGET = 'target.bin'       # what a symlinked destination points to
 
 
 # errnos injected per call (round 1: these are always swept with kills) ...
@@ -742,6 +743,27 @@ class C04(Property):
                 continue
             yield dict(base, win=1, kind='mv', fn=fn, ow=ow, dest=dest, sizes=[7])
 
+    def symlink_cases(self):
+        """the destination path is a symbolic link (to a regular file with the old content / to nothing); the part
+        file's name is taken by a symbolic link that points at the destination"""
+        base, W = self.BASE, self.with_ops
+        for ow, raises, txt, sizes in itertools.product((1, 0), (0, 1), (0, 1), ([5], [3, 70000])):
+            yield dict(base, sym='file', dest=self.PRESENT, ow=ow, raises=raises, txt=txt, sizes=sizes)
+            yield dict(base, sym='dangling', dest=None, ow=ow, raises=raises, txt=txt, sizes=sizes)
+        for sym, dest in (('file', [0o600, 4]), ('file', [0o444, 11]), ('dangling', None)):
+            yield dict(base, sym=sym, dest=dest, perms=0o640)
+            yield dict(base, sym=sym, dest=dest, rm=0, raises=1)
+            yield dict(base, sym=sym, dest=dest, rel=1, pathlib=1)
+            yield dict(base, sym=sym, dest=dest, win=1)
+            yield W(dict(base, sym=sym, dest=dest), ['w5', 'close'])
+            yield W(dict(base, sym=sym, dest=dest), ['w5', 'intrude', 'w3'])
+        for dest, owp, raises, sym in itertools.product((None, self.PRESENT), (0, 1), (0, 1), (None, 'file')):
+            if sym and dest is None:
+                continue
+            yield dict(base, dest=dest, part=1, psym=1, owp=owp, raises=raises, **({'sym': sym} if sym else {}))
+        yield dict(base, dest=self.PRESENT, part=1, psym=1, owp=1, ow=0)
+        yield dict(base, dest=None, part=1, psym=1, owp=1, ow=0, txt=1, sizes=[70000])
+
     def fault_cases(self, fb, second):
         """one operating-system failure at every call of the save `fb`, for every errno of the family that makes
         the save behave differently; `second`: also a second failure at every later call"""
@@ -807,6 +829,7 @@ class C04(Property):
         yield from self.instance_cases()
         yield from self.name_cases()
         yield from self.win_cases()
+        yield from self.symlink_cases()
         # read-only / mode-0 destinations (replacing them needs no write permission on the file itself)
         for mode, ow, raises in itertools.product((0o444, 0o400, 0), (1, 0), (0, 1)):
             yield dict(base, dest=[mode, 11], ow=ow, raises=raises, sizes=[3, 4])
@@ -943,10 +966,19 @@ class C04(Property):
         d = tempfile.mkdtemp(prefix='bvC04-')
         dest = os.path.join(d, DEST)
         if case['dest'] is not None:
-            with open(dest, 'wb') as f:
+            # sym='file': the destination path is a symbolic link to a regular file holding the old content
+            real = os.path.join(d, TARGET) if case.get('sym') == 'file' else dest
+            with open(real, 'wb') as f:
                 f.write(b'\x07' * case['dest'][1])
-            os.chmod(dest, case['dest'][0])
-        if case['part']:
+            os.chmod(real, case['dest'][0])
+            if real != dest:
+                os.symlink(TARGET, dest)
+        elif case.get('sym') == 'dangling':
+            os.symlink('nowhere', dest)      # a link to nothing: readers find no file, the NAME exists
+        if case['part'] and case.get('psym'):
+            # the part file's name is taken by a symbolic link pointing at the destination
+            os.symlink(DEST, os.path.join(d, self.pname(case)))
+        elif case['part']:
             with open(os.path.join(d, self.pname(case)), 'wb') as f:
                 f.write(b'\x09\x09')
             os.chmod(os.path.join(d, self.pname(case)), 0o640)
@@ -1009,8 +1041,9 @@ class C04(Property):
 
     @staticmethod
     def look(path):
+        # what a READER of the path finds (symbolic links are followed; a link to nothing reads as no file)
         try:
-            st = os.lstat(path)
+            st = os.stat(path)
         except OSError:
             return None
         if not stat.S_ISREG(st.st_mode):
@@ -1072,7 +1105,7 @@ class C04(Property):
             obs['final'] = classify(old, new, self.look(dest))
             names = sorted(os.listdir(d))
             obs['part'] = 1 if self.pname(case) in names else 0
-            obs['extra'] = [n for n in names if n not in (DEST, self.pname(case))]
+            obs['extra'] = [n for n in names if n not in (DEST, TARGET, self.pname(case))]
         except subprocess.TimeoutExpired:
             obs['out'] = 'exc:CaseTimeout'
         finally:
@@ -1153,7 +1186,7 @@ class C04(Property):
             obs['final'] = classify(old, new, self.look(dest))
             names = sorted(os.listdir(d))
             obs['part'] = 1 if (self.pname(case) in names and not part_is_dest(case)) else 0
-            obs['extra'] = [n for n in names if n not in (DEST, self.pname(case)) and not n.startswith(DEST + '.prior')]
+            obs['extra'] = [n for n in names if n not in (DEST, TARGET, self.pname(case)) and not n.startswith(DEST + '.prior')]
             obs['n_calls'] = spy.n
         finally:
             os.chdir('/')
@@ -1319,7 +1352,7 @@ class C04(Property):
             return Failure('unexpected-exception', 'atomic_save raised %s' % obs['out'][4:])
         if body_closes(case):
             st['closing_bodies'] = st.get('closing_bodies', 0) + 1
-        for key in ('reuse', 'rel', 'pathlib', 'pname', 'fault2', 'prior', 'cls', 'win'):
+        for key in ('reuse', 'rel', 'pathlib', 'pname', 'fault2', 'prior', 'cls', 'win', 'sym', 'psym'):
             if case.get(key):
                 st['with:' + key] = st.get('with:' + key, 0) + 1
         if 'intrude' in (case.get('ops') or ()):
@@ -1377,7 +1410,7 @@ class C04(Property):
                 if not published and letter == 'n' and old_letter != 'n':
                     return Failure('early-publication', 'new content visible when killed before call #%d, before the publishing event' % k)
         # a with-block that exits normally leaves the complete new content and no part file
-        refused = (not case['ow']) and (case['dest'] is not None or case.get('reuse') == 1)
+        refused = (not case['ow']) and (case['dest'] is not None or case.get('reuse') == 1 or case.get('sym') == 'dangling')
         blocked = self.stale(case) and not case['owp']
         if obs.get('fired'):
             if case.get('fault') and case['fault'][1] == 'K':
@@ -1466,7 +1499,7 @@ class C04(Property):
                     yield self.with_ops(case, ops[:i] + [m.group(1) + '6'] + ops[i + 1:])
             if not any(op in CLOSERS or op.startswith('wrap') or op in ('intrude', 'chdir') for op in ops):
                 yield {k: v for k, v in dict(case, sizes=ops_sizes(ops)).items() if k != 'ops'}
-            for key in ('reuse', 'rel', 'pathlib', 'pname', 'prior', 'cls'):
+            for key in ('reuse', 'rel', 'pathlib', 'pname', 'prior', 'cls', 'win'):
                 if case.get(key):
                     yield {k: v for k, v in case.items() if k != key}
             return
